@@ -22,7 +22,7 @@ through `path_mut()` keeps the buffer valid by `C04.path_session`, query and fra
 the setters of C04), the inputs being unchanged because the model is a pure function; and (ii)
 the scheme-mismatch branch returns `a` itself; and (iii) **the round trip itself on the class the
 function was written for** (`roundtrip_on_class_partial`): same scheme, equal authorities, absolute
-paths, a non-empty remainder of `a`'s normalised segments, without
+paths (the base's may also be empty), a non-empty remainder of `a`'s normalised segments, without
 empty segments, after the common prefix with the base's directory (and, when `a` has a query or a
 fragment, the relative path must not coincide with the base's last segment — the one special case
 of the code).  There `a.relative_to(b)` is
@@ -84,7 +84,7 @@ theorem roundtrip_on_class_partial (G : Grammar) (ok : Lemmas.Grammar.Ok G) (okp
     (ha : RE.Matches G.full a) (hb : RE.Matches G.full b)
     (hsch : (split a).scheme = (split b).scheme)
     (haa : (split a).authority = some aa) (hab : (split b).authority = some ab) (hauth : authKey aa = authKey ab)
-    (hpa : isAbs (split a).path = true) (hpb : isAbs (split b).path = true)
+    (hpa : isAbs (split a).path = true) (hpb : isAbs (split b).path = true ∨ (split b).path = [])
     (hnsp : (((split a).query.isSome || (split a).fragment.isSome) &&
       some (Lemmas.renderRel
         (((Ref.dropCommon (nsegs (split a).path) (nsegs (Path.parent_or_empty (split b).path))).2.map fun _ => segDotDot) ++
@@ -101,7 +101,7 @@ theorem class_outside_f12 (G : Grammar) (ok : Lemmas.Grammar.Ok G) (okp : Lemmas
     (ha : RE.Matches G.full a) (hb : RE.Matches G.full b)
     (hsch : (split a).scheme = (split b).scheme)
     (haa : (split a).authority = some aa) (hab : (split b).authority = some ab) (hauth : authKey aa = authKey ab)
-    (hpa : isAbs (split a).path = true) (hpb : isAbs (split b).path = true)
+    (hpa : isAbs (split a).path = true) (hpb : isAbs (split b).path = true ∨ (split b).path = [])
     (hnsp : (((split a).query.isSome || (split a).fragment.isSome) &&
       some (Lemmas.renderRel
         (((Ref.dropCommon (nsegs (split a).path) (nsegs (Path.parent_or_empty (split b).path))).2.map fun _ => segDotDot) ++
@@ -120,7 +120,7 @@ theorem relative_to_on_class (G : Grammar) (ok : Lemmas.Grammar.Ok G) (okp : Lem
     (ha : RE.Matches G.reference a) (hb : RE.Matches G.reference b)
     (hsch : (split a).scheme = (split b).scheme)
     (haa : (split a).authority = some aa) (hab : (split b).authority = some ab) (hauth : authKey aa = authKey ab)
-    (hpa : isAbs (split a).path = true) (hpb : isAbs (split b).path = true)
+    (hpa : isAbs (split a).path = true) (hpb : isAbs (split b).path = true ∨ (split b).path = [])
     (hnsp : (((split a).query.isSome || (split a).fragment.isSome) &&
       some (Lemmas.renderRel
         (((Ref.dropCommon (nsegs (split a).path) (nsegs (Path.parent_or_empty (split b).path))).2.map fun _ => segDotDot) ++
@@ -137,7 +137,7 @@ theorem uri_roundtrip_on_class_partial (a b aa ab : Text) (ha8 : ∀ c ∈ a, c 
     (ha : accepts .uri a = true) (hb : accepts .uri b = true)
     (hsch : (split a).scheme = (split b).scheme)
     (haa : (split a).authority = some aa) (hab : (split b).authority = some ab) (hauth : authKey aa = authKey ab)
-    (hpa : isAbs (split a).path = true) (hpb : isAbs (split b).path = true)
+    (hpa : isAbs (split a).path = true) (hpb : isAbs (split b).path = true ∨ (split b).path = [])
     (hnsp : (((split a).query.isSome || (split a).fragment.isSome) &&
       some (Lemmas.renderRel
         (((Ref.dropCommon (nsegs (split a).path) (nsegs (Path.parent_or_empty (split b).path))).2.map fun _ => segDotDot) ++
@@ -154,7 +154,7 @@ theorem iri_roundtrip_on_class_partial (a b aa ab : Text) (ha8 : ∀ c ∈ a, c 
     (ha : accepts .iri a = true) (hb : accepts .iri b = true)
     (hsch : (split a).scheme = (split b).scheme)
     (haa : (split a).authority = some aa) (hab : (split b).authority = some ab) (hauth : authKey aa = authKey ab)
-    (hpa : isAbs (split a).path = true) (hpb : isAbs (split b).path = true)
+    (hpa : isAbs (split a).path = true) (hpb : isAbs (split b).path = true ∨ (split b).path = [])
     (hnsp : (((split a).query.isSome || (split a).fragment.isSome) &&
       some (Lemmas.renderRel
         (((Ref.dropCommon (nsegs (split a).path) (nsegs (Path.parent_or_empty (split b).path))).2.map fun _ => segDotDot) ++
@@ -174,6 +174,10 @@ example :
     isAbs (split a).path = true ∧ isAbs (split b).path = true ∧ (split a).fragment = some [0x66] ∧
     (Ref.dropCommon (nsegs (split a).path) (nsegs (Path.parent_or_empty (split b).path))).1 = [[0x62], [0x63]] ∧
     Ref.relative_to a b = some [0x2E,0x2E,0x2F,0x62,0x2F,0x63,0x23,0x66] := by decide
+
+/-- the class contains bases with an empty path: `s://h/a/b` relative to `s://h` is `a/b` -/
+example : Ref.relative_to [0x73,0x3A,0x2F,0x2F,0x68,0x2F,0x61,0x2F,0x62] [0x73,0x3A,0x2F,0x2F,0x68]
+    = some [0x61,0x2F,0x62] := by decide
 
 /-- negative witnesses of F12 on the model (and, by correspondence, on the code) -/
 example : Findings.f12 [0x73, 0x3A] [0x73, 0x3A, 0x2F, 0x2F, 0x68, 0x2F, 0x61] = true := by decide
